@@ -116,6 +116,8 @@ void frgv_pol_ap_unmap(struct frgv_pol_ap *this, unsigned long base, unsigned lo
 void frgv_pol_ap_poison(struct frgv_pol_ap *this, void *p, unsigned long n) { poison_range(p, n, 1); }
 void frgv_pol_ap_unpoison(struct frgv_pol_ap *this, void *p, unsigned long n) { poison_range(p, n, 0); }
 void frgv_pol_ap_unpoison_expand(struct frgv_pol_ap *this, void *p, unsigned long n) { poison_range(p, n, 2); }
+uintptr_t frgv_pol_e_map(struct frgv_pol_e *this, unsigned long length, unsigned long align) { return policy_map(length, 0, align); }
+void frgv_pol_e_unmap(struct frgv_pol_e *this, unsigned long base, unsigned long length) { policy_unmap(base, length); }
 uintptr_t frgv_pol_u_map(struct frgv_pol_u *this, unsigned long length) { return policy_map(length, 1, 0x400); }
 void frgv_pol_u_unmap(struct frgv_pol_u *this, unsigned long base, unsigned long length) { policy_unmap(base, length); }
 uintptr_t frgv_pol_d_map(struct frgv_pol_d *this, unsigned long length, unsigned long align) { return policy_map(length, 0, align); }
@@ -153,6 +155,9 @@ static void *set_first(void *tree)
 void pa_tree_insert(struct pa_tree *this, struct pa_slab_frame *node) { set_insert(this, node); }
 void pa_treeb_remove(struct pa_treeb *this, struct pa_slab_frame *node) { set_remove(this, node); }
 struct pa_slab_frame *pa_treeb_first(struct pa_treeb *this) { return set_first(this); }
+void pe_tree_insert(struct pe_tree *this, struct pe_slab_frame *node) { set_insert(this, node); }
+void pe_treeb_remove(struct pe_treeb *this, struct pe_slab_frame *node) { set_remove(this, node); }
+struct pe_slab_frame *pe_treeb_first(struct pe_treeb *this) { return set_first(this); }
 void pu_tree_insert(struct pu_tree *this, struct pu_slab_frame *node) { set_insert(this, node); }
 void pu_treeb_remove(struct pu_treeb *this, struct pu_slab_frame *node) { set_remove(this, node); }
 struct pu_slab_frame *pu_treeb_first(struct pu_treeb *this) { return set_first(this); }
@@ -321,6 +326,27 @@ void h_##P##_get_size_large(void) \
 }
 GET_SIZE_H(pa, ap, pol_ap, 0)
 GET_SIZE_H(pu, u, pol_u, 1)
+/* the configuration with page size == superblock size: the header page of a large frame is a whole superblock, so the user area is
+ * superblock-aligned and only (p - 1) rounds to the header */
+void h_pe_get_size_large(void)
+{
+	POOL_INIT(pe, pool, e);
+	size_t area = nondet_size_t(); __CPROVER_assume(area >= 0x400 && area <= 0x1000 && (area & 0x3ff) == 0);
+	char *region = arena_alloc(area + 0x400);
+	struct pe_frame *f = (struct pe_frame *)region;
+	f->type = FT(pol_e, large); f->address = frgv_p2i(region) + 0x400; f->length = area; f->sb_base = frgv_p2i(region); f->sb_reservation = area + 0x400;
+	size_t k = nondet_size_t(); __CPROVER_assume(k < 8); region[0x400 + k] = (char)nondet_size_t();        /* user data where a header would be misread */
+	__CPROVER_assert(pe_get_size(&pool, region + 0x400) == area, "C01: the size reported for a large block is its page-rounded area, also when the user area is superblock-aligned");
+	FRGV_CANARY();
+}
+void h_pe_get_size_slab(void)
+{
+	POOL_INIT(pe, pool, e);
+	MK_SLAB(pe, pol_e, region, slb, idx, item, overhead);
+	size_t k = nondet_size_t(); __CPROVER_assume(k < (SLAB - overhead) / item);
+	__CPROVER_assert(pe_get_size(&pool, region + overhead + k * item) == item, "C01: the size reported for a slab block is its class size");
+	FRGV_CANARY();
+}
 
 /* ---- allocate, large path: C01 (size, placement), C03 (accounting), C04 (map failure), C05 (locks) */
 #ifndef ALLOC_LEN
